@@ -20,6 +20,31 @@ CLAIMED["C06"] = ("model_checking",
   "All clean streams of <=2 (thorough 3) values over a 6-value core in 5 separator kinds, with every 1- and 2-byte noise token over 12 non-value-starting bytes in every gap, under all four policies and six pipelines, are compared clause by clause with the run on the clean stream (and on the clean prefix for panic).",
   "trusted: the run on the clean stream (checked separately by C01/C03). Noise tokens are whitespace-delimited as the property states.",
   "DESIGN.md §5 C06")
+CLAIMED["C02"] = ("model_checking",
+  "bounded-exhaustive enumeration of values x styles x utf8 x row separators on jawk::go; rows re-read by an independent strict RFC 8259 reader; style relations and a second-run fixpoint checked on every case",
+  "Every string of length <=2 over a 49-character alphabet (all C0 controls, DEL, U+2028/9, U+FFFF, astral planes) as value, member name and array element, 26 boundary numbers, 17 results of arithmetic (incl. overflow), ~90 containers of depth <=3, in all 3 styles x utf8 on/off x 4 row separators; each output is fed back for the fixpoint.",
+  "trusted: the strict reference reader. Known finding: non-BMP characters without --utf8-strings (pinned by a unit test of the repository).",
+  "DESIGN.md §5 C02")
+CLAIMED["C14"] = ("model_checking",
+  "exhaustive enumeration of (prefix, option subset, S, T) on an endless byte-counting reader with a 64 KiB horizon, against a step-wise reference pipeline; FIFO variant for the file path",
+  "Every prefix of <=2 (thorough 3) values over a 5-value alphabet followed by an endless stream of qualifying values, under every subset of the six streaming options and every S in 0..3, T in 0..5, must return Ok with exactly the expected rows without reaching the horizon and without pulling more than 16 bytes past the value that produced row S+T.",
+  "'unbounded' is approximated by the 64 KiB horizon (a pipeline that needs more look-ahead is reported, as intended). T=0 is allowed to read until row S+1 arrives.",
+  "DESIGN.md §5 C14")
+CLAIMED["C16"] = ("fault_enumeration",
+  "exhaustive fault-point enumeration: read failure at every input offset (after 0..2 EINTR), write failure at every output offset (plain / short writes / EINTR), stderr failures, unopenable files, x policies x pipelines, on jawk::go with fault-injecting Read/Write",
+  "Every fault point of every generated history is executed; the run must end in Err (never Ok, never a panic), must not ask the reader again after its failure, and what reached stdout must be a prefix of the fault-free output; faults the fault-free run never reaches must change nothing.",
+  "trusted: std's Bytes/BufReader/write_all treatment of Interrupted. The in-process sinks stand in for the OS handles (C20 covers the executable).",
+  "DESIGN.md §5 C16")
+CLAIMED["C17"] = ("model_checking",
+  "exhaustive enumeration of deliveries (every <=2-cut chunking, EINTR positions, file, FIFO) and of file partitions (every composition, every cut inside the text) with a byte-offset location model for the seven & selectors",
+  "All streams of <=3 values over a 7-value core (multi-line values, multi-byte text, multi-digit numbers) in 6 separator kinds, clean and noisy: every delivery must give the identical observation, out(f1..fn) must equal out(f1)..out(fn), and &index/&index-in-file/&file-name/start/end are compared with the reference reader's spans (containment, contiguity, LF-only line counting).",
+  "jawk reads stdin one byte at a time today, so chunked deliveries are indistinguishable on the current tree; they are kept because a buffered reader is the realistic change. Directory traversal order is outside.",
+  "DESIGN.md §5 C17")
+CLAIMED["C18"] = ("model_checking",
+  "exhaustive single-fault corruption (truncation at every offending offset, parenthesis, unknown name, arity of every function and alias, trailing garbage, directions, --set, style options, csv constraints) of valid configurations in every option position and style, on jawk::go with a stdin factory that records being opened",
+  "Each corrupted configuration is run on a non-empty input and must be rejected (Err or clap usage error) with zero bytes on stdout and without the stdin factory being called.",
+  "trusted: clap's own validation of enum/numeric option values.",
+  "DESIGN.md §5 C18")
 NOT_YET = {}
 props=[json.loads(l) for l in open('/verif/properties.jsonl')]
 checks=[]; na=[]
